@@ -7,3 +7,6 @@ func TestWorker(t *testing.T) { WorkerMain(t) }
 
 // TestReplay replays one replay file (SIM_REPLAY=<file>).
 func TestReplay(t *testing.T) { ReplayMain(t) }
+
+// TestKillChild is the child process of the createkill engine (SIM_KILL_SPEC=<file>).
+func TestKillChild(t *testing.T) { KillChildMain(t) }
